@@ -93,6 +93,12 @@ const("json_hex_variant", "versatiles_core/src/byte_iterator/basics.rs", [
     (r"b'u' =>.{0,300}?from_utf8_lossy\(&hex\)", 1),
 ], "\\u escape: 0 = from_utf8(&hex).unwrap() (panics when the 4-byte window cuts a character), 1 = error")
 
+# ---- C18 vpl/parser.rs ----
+const("vpl_empty_variant", "versatiles_pipeline/src/vpl/parser.rs", [
+    (r"fn parse_quoted_string.{0,400}?opt\(parse_string\)", 1),
+    (r"fn parse_quoted_string.{0,300}?delimited\(char\('\\\"'\), parse_string, cut", 0),
+], "quoted string body: 0 = parse_string (an empty \"\" is rejected), 1 = opt(parse_string)")
+
 def main():
     out = ["(* GENERATED by tools/scrape_constants.py from /repo — do not edit *)",
            "From Coq Require Import NArith.", "Local Open Scope N_scope.", ""]
